@@ -224,8 +224,8 @@ def r4(ctx, facts, model):
                 # every item of an iteration over `raised` is raised
                 bulk = False
                 for nbb, nt in b.calls():
-                    if nt["callee"].get("path") == "std::iter::Iterator::next" and any(
-                            r[0] == "param" and r[1] == 1 and r[2][:1] == ("raised",) for r in b.roots(b.arg_origin(nbb, 0))):
+                    if nt["callee"].get("path") == "std::iter::Iterator::next" and \
+                            b.receiver_root(b.arg_origin(nbb, 0))[:2] == ("param", 1) and b.receiver_root(b.arg_origin(nbb, 0))[2][:1] == ("raised",):
                         for ve in b.variant_edges(lambda so: so == ("call", nbb, ())):
                             some = ve["edges"].get("Some")
                             rs = [x for x, k in model.gen_slot_calls(b, model.raise_) if k is not None and k[0] == "call" and k[1] == nbb]
